@@ -421,7 +421,10 @@ def run_pair(pair: str, defs: dict, with_root: bool, variant: int) -> tuple[str,
             shutil.rmtree(d, ignore_errors=True)
     if pair == "auto_vs_explicit":
         if variant % 2 == 0:
-            return compare(base, run_gen(json.dumps(base_doc, ensure_ascii=False), "auto"), set())
+            doc = dict(base_doc)
+            if with_root and variant % 4 == 2:
+                del doc["$schema"]  # then `type: object` / `properties` is what marks it as a schema
+            return compare(run_gen(json.dumps(doc, ensure_ascii=False), "jsonschema"), run_gen(json.dumps(doc, ensure_ascii=False), "auto"), set())
         oa = wrap_openapi(defs)
         return compare(run_gen(json.dumps(oa, ensure_ascii=False), "openapi"), run_gen(yaml.safe_dump(oa, allow_unicode=True, sort_keys=False), "auto"), set())
     if pair == "definitions_vs_defs":
@@ -496,7 +499,8 @@ def oracle_case(ck: Check, camp, pair: str, defs: dict, with_root: bool, variant
     trig = string_trigger(small)
     style = ["compact", "indent_ascii", "tabs"][variant % 3] if pair == "json_styles" else ""
     camp.hit(f"differ:{pair}:{mech}:{trig}")
-    ck.fail({"oracle": "equivalent_inputs", "pair": pair, "mechanism": mech, "trigger": trig, "style": style},
+    ck.fail({"oracle": "equivalent_inputs", "pair": pair, "mechanism": mech, "trigger": trig, "style": style,
+             "has_exponent_float": "exponent_float" in trig, "has_astral_char": "astral_char" in trig},
             {"pair": pair, "definitions": small, "with_root": with_root, "variant": variant}, r2[1])
 
 
